@@ -93,6 +93,16 @@ CHECKS = {
    text="6 base grids (north-up, mirrored, 45/30 deg rotated; dyadic exact and realistic) x families derived by integer shifts -4..4 and shapes 0..3: all ordered pairs (|, &, overlap_roi both orders, pixel_translation, bounding_box_in_pixel_domain) and all ordered triples of a sub-family (associativity, n-ary conservative union/intersection): union = bounding rectangle, intersection = exactly the shared pixels (empty GeoBox when none), overlap_roi under numpy indexing selects exactly the shared pixels of the first operand; incompatible grids (scale, rotation, shear, mirror, sub-pixel residue) across 9 operations must raise; snap_to moves <= 1/2 px onto the grid; enclosing of same-CRS and other-CRS regions (fresh pyproj, edges densified) lies on the grid, covers, exceeds by < 1 px; bounding boxes: all pairs and a million triples for the lattice laws.",
    note="Exact == on dyadic bases, R tolerance otherwise. Residues of ~1e-9 px are accept-or-raise. Zero-area regions for enclosing not covered. CRS-mismatch rejection is C01.",
    design="4/C16", thorough=True),
+ "C03": dict(level="exploration", engine="E1",
+   technique="bounded-exhaustive enumeration of GeoBox pairs; brute force over ALL destination pixels through an independently composed pixel-to-pixel map",
+   text="About 6e5 cases (quick), 3.9e6 (thorough): compute_axis_overlap alone on an exact-rational oracle; same-CRS pairs over the complete integer shift range x 12 sub-pixel shifts x integer / near-integer / fractional / anisotropic scales x 4 mirrors x rotations x padding {None,0,1,3} x align {None,0,2,4}; 14 ordered CRS pairs x 5 locations inside both valid areas x 3 scale classes x 10 placements, and continental extents. For every case every destination pixel centre is mapped to the source plane by the check's own composition of the affines and a FRESH pyproj transformer (cross-checked against info.transform.back): a centre inside the source image must be inside roi_dst and its source location inside roi_src; ROIs inside their images (source up to the next multiple of read_shrink); separated by more than the padding margin => both empty; scale == min(scale2), scale2 vs per-axis pixel-size ratios (finite difference for non-linear), read_shrink a positive int not exceeding scale by more than the stated tolerance.",
+   note="Points within 1e-6 px of an image boundary are neither required nor forbidden. GCP GeoBoxes, sheared same-CRS pairs and non-default ttol/stol not covered.",
+   design="4/C03", thorough=True),
+ "C12": dict(level="exploration", engine="E1",
+   technique="bounded-exhaustive enumeration of tiled GeoBoxes, queries and raster pairs; brute force over all tile pairs with independently computed (densified) footprints",
+   text="About 6.4e5 cases (quick): geometry queries (boxes, triangles, diamonds inside/straddling/touching/outside/larger) on north-up, flipped and 30-deg rotated tiled GeoBoxes with regular and variable tiles, in the same CRS and in another CRS: exactly the tiles whose footprint is not disjoint from the query (1e-6 px touching band open); bounding-box queries and pixel-plane boxes: supersets inside the tile grid. Tile dependency graphs: same-CRS pairs (aligned, scale 2, 1/2, 1.5, mirrored, rotated 30/90) over 8x8 placements and cross-CRS pairs (3857<->4326, 3577<->32755; small tiles and 2048-px tiles) judged by brute force over ALL (destination tile, source tile) pairs with footprints computed by the check (shapely, densified and projected with a fresh pyproj transformer): every pair overlapping by more than half a destination pixel must be an edge; disjoint rasters => no edge and no exception.",
+   note="Extra edges are allowed (counted). CRS-less geometry queries have two readings in the code base (pixel plane vs world) and are recorded as outcomes, not judged. Tiled GCP rasters and multi-part queries not covered.",
+   design="4/C12", thorough=True),
 }
 NOT_YET = "check not built yet in this session (design in DESIGN.md section 4); no claim made"
 
